@@ -663,6 +663,31 @@ func init() {
 					}
 				}
 			}
+			if pn := w.NodeByName("prod"); pn != nil && len(ex.StreamPaths) > 0 && failProc == "" && diskFull == 0 {
+				// a streaming producer with two ordinary outputs: often make one of ITS
+				// tasks omit an ordinary output (which of the outputs the library looks at
+				// or moves first is a matter of map order)
+				plain := 0
+				for _, o := range pn.Outs {
+					if !o.Stream {
+						plain++
+					}
+				}
+				if plain >= 2 && c.Tape.Choose(simrt.StFault, 2, 0) == 1 {
+					var pts []*RTask
+					for _, t := range ex.Tasks {
+						if t.Proc == "prod" {
+							pts = append(pts, t)
+						}
+					}
+					if len(pts) > 0 {
+						v := pts[c.Tape.Choose(simrt.StFault, len(pts), 0)]
+						fault = &FaultSpec{Key: v.Key, Mode: simrt.FailOmit, Arg: c.Tape.Choose(simrt.StFault, 6, 0)}
+						fault2 = nil
+						what = fmt.Sprintf(" with %s of %s", fault.Mode, v.Key)
+					}
+				}
+			}
 			for _, f := range []*FaultSpec{fault, fault2} {
 				// "declared output not produced" is meant for ordinary outputs (a stream
 				// that is never opened is another matter): aim at one of those
